@@ -84,10 +84,69 @@ def run(args):
         if batches and len(samples) < 3:
             samples.append(dict(options=list(oset), module=batches[0].text[:400]))
         shutil.rmtree(work, ignore_errors=True)
+    # ---- the emitted file set itself (asn1c_save.c, skeletons/file-dependencies): full emission without -R, built with the
+    # emitted converter-example.mk from the files asn1c copied (no -I into /repo), then the converter is run on a reference DER
+    import subprocess
+    from gen import values as _V
+    from ref import ber as _ber
+    full_sets = [(), ('noper',), ('nooer',), ('wide',), ('compound', 'indirect')] if args.tier == 'quick' else [()] + [(n,) for n in OPTS] + [('noper', 'nooer')]
+    fcases = typegen.cases('quick', ['S0', 'S2', 'S5'])
+    fmods = typegen.pack(fcases, 40)
+    if args.tier == 'quick':
+        fmods = fmods[::4]
+        full_sets = [(), ('noper', 'nooer'), ('wide', 'compound', 'indirect')]
+    exe = build.asn1c()
+
+    def full_one(job):
+        (mod, cs), oset = job
+        d = os.path.join(build.BUILD, 'c10full-%d' % os.getpid(), '%s-%s' % (mod.name, '_'.join(oset) or 'none'))
+        shutil.rmtree(d, ignore_errors=True)
+        os.makedirs(d)
+        text = A.module_text(mod)
+        with open(os.path.join(d, 'm.asn1'), 'w') as f:
+            f.write(text)
+        opts = [OPTS[n] for n in oset]
+        r = subprocess.run([exe, '-S', os.path.join(build.REPO, 'skeletons')] + opts + ['m.asn1'], cwd=d, stdout=subprocess.PIPE, stderr=subprocess.PIPE, timeout=300)
+        res = None
+        if r.returncode < 0:
+            res = ('asn1c_killed_by_signal', 'signal %d' % -r.returncode)
+        elif r.returncode == 0:
+            # CFLAGS through the environment: the emitted makefile appends its own -I. with +=
+            m = subprocess.run(['make', '-f', 'converter-example.mk', '-j4'], cwd=d, timeout=900, stdout=subprocess.PIPE, stderr=subprocess.STDOUT,
+                               env=dict(os.environ, CFLAGS='-O0 -w ' + ' '.join(x for x in STRICT if x.startswith('-Werror'))))
+            if m.returncode != 0:
+                out = m.stdout.decode(errors='replace')
+                first = next((l for l in out.split('\n') if ' error' in l.lower() or 'undefined reference' in l or 'No rule to make' in l), out[-300:])
+                res = ('emitted_file_set_does_not_build', first[:300])
+            else:
+                c = cs[0]
+                t = mod.types[c.name]
+                v = _V.typical(mod, t)
+                dder = _ber.der(mod, t, v)
+                with open(os.path.join(d, 'in.der'), 'wb') as f:
+                    f.write(dder)
+                cv = subprocess.run(['./converter-example', '-p', c.name, '-iber', '-oder', 'in.der'], cwd=d, stdout=subprocess.PIPE, stderr=subprocess.PIPE, timeout=60)
+                if cv.returncode != 0 or cv.stdout != dder:
+                    res = ('emitted_converter_misbehaves', 'exit %d, output %s expected %s: %s' % (cv.returncode, cv.stdout.hex()[:80], dder.hex()[:80], cv.stderr.decode(errors='replace')[-200:]))
+        shutil.rmtree(d, ignore_errors=True)
+        return res, text, oset
+    from concurrent.futures import ThreadPoolExecutor
+    fjobs = [(mc, oset) for mc in fmods for oset in full_sets]
+    with ThreadPoolExecutor(build.JOBS) as ex:
+        for (res, text, oset) in ex.map(full_one, fjobs):
+            programs += 1
+            stats.setdefault('full_emission', dict(runs=0, failed=0))['runs'] += 1
+            if res:
+                stats['full_emission']['failed'] += 1
+                import re as _re
+                chk.violation(dict(kind=res[0], options='+'.join(oset) or 'none', error_class=_re.sub(r'[0-9]+', 'N', res[1])[:80]), dict(module=text, detail=res[1], asn1c_opts=[OPTS[n] for n in oset], asn1c_mode='(full emission, no -R)'))
+    shutil.rmtree(os.path.join(build.BUILD, 'c10full-%d' % os.getpid()), ignore_errors=True)
     cov = dict(evaluations=programs, distinct_nontrivial=len(distinct), programs=programs,
                rule='every type of families %s compiled under %d option sets (none, each single option of {%s}, %s): asn1c must exit normally; status 0 => the emitted '
                     'C compiles with %s, links with the skeleton library and a table referencing every asn_DEF_*, all emitted headers pass g++ -fsyntax-only, and the '
                     'descriptor lint (member offsets inside struct_size, tag2el sorted and in range, oms in range, first_extension consistent, mandatory op entries) passes; '
+                    'additionally a selection of 40-type modules is emitted in full (no -R) under several option sets and built ONLY from the files asn1c copied, with the emitted '
+                    'converter-example.mk, and the resulting converter must reproduce a reference DER value (covers asn1c_save.c and skeletons/file-dependencies); '
                     'non-zero exit => a diagnostic on stderr. Failing 40-type modules are bisected to the single offending type. non-trivial = (option set, composite type)' % (
                         ','.join(fams), len(sets), ','.join(OPTS.values()), 'two combined sets' if args.tier == 'quick' else 'all pairs and all together', ' '.join(STRICT)),
                samples=samples, option_sets=stats, trusted_base=['gcc/g++ diagnostics', 'drv/xform.c lint'])
